@@ -181,36 +181,35 @@ def shapes(trace):
 
 
 def mt_probe(ck):
-    """Supporting evidence only: timing dependent (0 % .. 100 % of the SELECTs come back empty
-    depending on load), so up to three rounds; whatever the outcome it never fails the check."""
-    best = None
+    """Result delivery on a multi-thread runtime (not scheduler controlled): three rounds of 300
+    identical SELECTs over 3 rows.  Returns the round with the most incomplete results."""
+    worst = None
     for _ in range(3):
         rc, out = vlib.sh([vlib.harness_bin("c10"), "mt", "300"], timeout=300)
         m = re.search(r"\(mt \(n (\d+)\) \(full (\d+)\) \(empty (\d+)\) \(other (\d+)\)\)", out)
         if not m:
             continue
         r = {"n": int(m.group(1)), "full": int(m.group(2)), "empty": int(m.group(3)), "other": int(m.group(4))}
-        if best is None or r["empty"] > best["empty"]:
-            best = r
-        if r["empty"] > 0:
-            break
-    return best
+        if worst is None or r["empty"] + r["other"] > worst["empty"] + worst["other"]:
+            worst = r
+    return worst
 
 
 def report_mt(ck, mt):
-    """The probe is timing dependent and not scheduler controlled: it is supporting evidence and
-    can never decide the check.  Shows -> KNOWN-FINDING line (the signature is recorded in
-    known_findings/C10.json); does not show, or the probe could not run -> nothing.  Should the
-    signature ever be missing from the known-findings file the observation is only logged."""
-    if not mt or mt.get("empty", 0) <= 0:
+    """Since /repo 67e965e (`fix:` deactivate the receiver before spawning the producer) a SELECT
+    on a multi-thread runtime must deliver all its rows: an empty or partial result is a
+    VIOLATION (signature `delivery:multi-thread-deactivate-race`, listed under `fixed`, which
+    suppresses nothing).  A probe that could not run says nothing."""
+    if not mt:
+        ck.notes.append("multi-thread probe did not run")
         return "silent"
-    what = "on a multi-thread runtime %d of %d identical SELECTs over 3 rows returned no rows" % (mt["empty"], mt["n"])
-    if (ck.prop, SIG_MT) in ck.known:
-        ck.report(SIG_MT, what, replay={"cmd": "harness c10 mt 300", "result": mt})
-        return "known"
-    ck.log("supporting evidence (not a verdict): " + what)
-    ck.notes.append("multi-thread probe: " + what)
-    return "logged"
+    if mt.get("empty", 0) + mt.get("other", 0) <= 0:
+        return "ok"
+    what = "on a multi-thread runtime %d of %d identical SELECTs over 3 rows returned no rows (%d returned some other result)" % (
+        mt["empty"], mt["n"], mt["other"])
+    ck.report(SIG_MT, what, replay={"cmd": "harness/target/debug/c10 mt 300", "result": mt,
+                                    "sql": ["create table t (v int)", "insert into t values (1),(2),(3)", "select v from t"]})
+    return "violation"
 
 
 EXHAUSTIVE_TEMPLATES = [
